@@ -153,7 +153,7 @@ impl CodeCache {
 
     let space_remaining = available_length - write_cursor;
     if space_remaining < MEMORY_MINIMUM_SIZE {
-      println!("Running out of space, only {} bytes left", space_remaining);
+      eprintln!("Running out of space, only {} bytes left", space_remaining);
     }
 
     starting_offset
